@@ -215,6 +215,10 @@ def programs(tier):
                                                new("IndicatorFromMathExpression", "i1", name="i1", expression=E(["start", "a"])),
                                                new("IndicatorFromMathExpression", "i2", name="i2", expression=E(["start", "b"])),
                                                new("ObjectiveMinimizeIndicator", "o1", target=R("i1"), weight=1), new("ObjectiveMinimizeIndicator", "o2", target=R("i2"), weight=1)])))
+    out.append(("two-work-amounts", prog(3, [var("a", work_amount=2, max_duration=3), var("b", work_amount=3, max_duration=3), worker("w1"), worker("w2", productivity=2),
+                                             req("a", "w1"), req("b", "w2")])))
+    out.append(("startlatest-optional", prog(3, [fixed("a", 1), fixed("o", 1, optional=True), con("OptionalTaskForceSchedule", "f", task=R("o"), to_be_scheduled=False),
+                                                 new("ObjectiveTasksStartLatest", "ob")])))
     out.append(("cumulative+idle", prog(3, [fixed("a", 1), fixed("b", 2), fixed("c", 1), cumul("k", 2), worker("w"), req("a", "k"), req("b", "k"), req("c", "w"), req("a", "w"),
                                             new("IndicatorResourceIdle", "i", resource=R("w"))])))
     if tier == "thorough":
@@ -317,7 +321,8 @@ def activities():
 def history_targets(tier):
     ps_ = dict(programs(tier))
     out = [("select+optional+distance", ps_["select+optional+distance"], {}), ("objective", ps_["objective"], {}), ("objective/optimize", ps_["objective"], {"optimizer": "optimize"}),
-           ("objective/random", ps_["objective"], {"random_values": True}), ("buffer", ps_["buffer"], {}), ("constraints/debug", ps_["constraints"], {"debug": True})]
+           ("objective/random", ps_["objective"], {"random_values": True}), ("buffer", ps_["buffer"], {}), ("constraints/debug", ps_["constraints"], {"debug": True}),
+           ("startlatest-optional", ps_["startlatest-optional"], {})]
     return out
 
 
